@@ -103,7 +103,7 @@ def template_root(backend, metadata="file"):
 
 class Config:
     def __init__(self, front="wsgi", backend="tree", prefix="/", threshold=None, metadata="file",
-                 features=(), names=None, bodies=None, ops=None, props=None, oracles=(), label=None):
+                 features=(), names=None, bodies=None, ops=None, props=None, oracles=(), label=None, ct_for=None):
         self.front = front
         self.backend = backend
         self.prefix = prefix if prefix.endswith("/") else prefix + "/"
@@ -115,6 +115,7 @@ class Config:
         self.ops = ops  # callable(model, cfg) -> list of ops, or None for default
         self.props = props or {}
         self.oracles = set(oracles)
+        self.ct_for = ct_for or {}  # body id -> media type it is uploaded with (default: by the extension of the name)
         self.label = label or "%s/%s%s%s" % (backend, front, "" if self.prefix == "/" else "@" + self.prefix, "" if metadata == "file" else "+cfgmeta")
 
 
@@ -134,6 +135,8 @@ class DavSys:
             self.world = http.ProcWorld(self.root, prefix=cfg.prefix, index_threshold=cfg.threshold)
         else:
             raise ValueError(cfg.front)
+        if "slow-body" in cfg.features:
+            self.world.slow_body = 0.04
         self.world_b = None
         self._via_b = False
         if "two-workers" in cfg.features:
@@ -322,7 +325,9 @@ class DavSys:
             name = self.resolve_name(coll, name)
             target_coll, target_name = coll, name
             body = B.ALL_BODIES[bid]
-            headers = {"Content-Type": B.content_type_for(name)}
+            headers = {"Content-Type": self.cfg.ct_for.get(bid) or B.content_type_for(name)}
+            if headers["Content-Type"] == "(none)":
+                headers = {}
             if cond:
                 hname, hval = self.cond_header(coll, name, cond, prev)
                 headers[hname] = hval
